@@ -256,11 +256,14 @@ type sysRun struct {
 	// second configuration: Scheduler over NewVolatileTaskRepo(CronStore)
 	workers       int
 	dp            *dproxy
-	waitingWorker bool   // Step / Retry is inside Dispatch, every worker is busy
-	lastCallId    string // id of the scheduler's latest MarkAsDispatched / GetById
-	lastGetState  string // state of the task the latest GetById returned
-	announcedId   string // id of the task the latest Step announced (NextTask)
-	hotId         string // the task the scheduler is holding on to (announced, or of a failed dispatch not yet retried)
+	waitingWorker bool          // Step / Retry is inside Dispatch, every worker is busy
+	pendReq       *callReq      // settle(): the goroutine's next call, received but not yet let through
+	pendDone      *stepOutcome  // ... or its return
+	pendEnter     chan struct{} // ... or its entry into Dispatch
+	lastCallId    string        // id of the scheduler's latest MarkAsDispatched / GetById
+	lastGetState  string        // state of the task the latest GetById returned
+	announcedId   string        // id of the task the latest Step announced (NextTask)
+	hotId         string        // the task the scheduler is holding on to (announced, or of a failed dispatch not yet retried)
 	inRetry       bool
 
 	// exhaustive fault placement: the k-th faultable call of the scheduler (before quiescence) gets the planned fault
@@ -672,6 +675,10 @@ func (s *sysRun) pickId() string {
 }
 
 func (s *sysRun) advance(far bool) {
+	s.settle()
+	if s.failed != "" {
+		return
+	}
 	if s.vmode {
 		if far {
 			// cron rows never run dry: quiescence here means "nothing due is left waiting", so time only moves
@@ -786,15 +793,31 @@ func (s *sysRun) outstanding() int { return len(s.running) + len(s.accepted) }
 
 // progress: the Step goroutine is able to move: wait for its next call or for its return
 func (s *sysRun) progress() {
+	// an event the scheduler goroutine had already reached when the harness last waited for it to settle comes first
+	enterCh, callsCh, doneCh := (<-chan chan struct{})(s.dp.enter), (<-chan *callReq)(s.proxy.calls), (<-chan stepOutcome)(s.stepDone)
+	switch {
+	case s.pendEnter != nil:
+		c := make(chan chan struct{}, 1)
+		c <- s.pendEnter
+		s.pendEnter, enterCh, callsCh, doneCh = nil, c, nil, nil
+	case s.pendReq != nil:
+		c := make(chan *callReq, 1)
+		c <- s.pendReq
+		s.pendReq, enterCh, callsCh, doneCh = nil, nil, c, nil
+	case s.pendDone != nil:
+		c := make(chan stepOutcome, 1)
+		c <- *s.pendDone
+		s.pendDone, enterCh, callsCh, doneCh = nil, nil, nil, c
+	}
 	select {
-	case g := <-s.dp.enter:
+	case g := <-enterCh:
 		// the scheduler goroutine enters Dispatch: with every worker busy it will wait there
 		if s.outstanding() >= s.workers {
 			s.waitingWorker = true
 			s.stats["driver:dispatch-waits-for-worker"]++
 		}
 		close(g)
-	case req := <-s.proxy.calls:
+	case req := <-callsCh:
 		if req.kind == "markdisp" || req.kind == "getbyid" {
 			if i := strings.Index(req.term, "\""); i >= 0 {
 				s.lastCallId = strings.TrimSuffix(req.term[i+1:], "\")")
@@ -835,7 +858,7 @@ func (s *sysRun) progress() {
 		if req.kind == "timerch" {
 			s.inSelect = true
 		}
-	case out := <-s.stepDone:
+	case out := <-doneCh:
 		wasSelect := s.inSelect
 		s.stepActive, s.inSelect, s.waitingWorker = false, false, false
 		s.log("LStepEnd " + stateTerm(out.st) + " " + cq.Bool(out.retryErr))
@@ -904,6 +927,26 @@ func (s *sysRun) progress() {
 	case <-time.After(waitLong):
 		s.fail("scheduler goroutine made no progress")
 		s.stepActive = false
+	}
+}
+
+// settle: wait until the scheduler goroutine has reached its next gate (its next repository call, its entry into Dispatch,
+// or its return) without letting it through. Between two gates it reads one piece of shared state that is not a call: the
+// clock. The clock may therefore only move while the goroutine is parked or sits at a gate - then "the clock at the
+// previous call" is what it read, as the monitor assumes.
+func (s *sysRun) settle() {
+	if !s.stepActive || s.parked() || s.pendReq != nil || s.pendDone != nil || s.pendEnter != nil {
+		return
+	}
+	select {
+	case r := <-s.proxy.calls:
+		s.pendReq = r
+	case o := <-s.stepDone:
+		s.pendDone = &o
+	case g := <-s.dp.enter:
+		s.pendEnter = g
+	case <-time.After(waitLong):
+		s.fail("scheduler goroutine made no progress")
 	}
 }
 
